@@ -506,3 +506,366 @@ def row_assembly(model, rep, r, rule, headers, construct="system.System.solve"):
     rep.instance(rule, "%s row body: %s" % (construct, ", ".join(headers)), where, ok, "%d leaves, %d rows" % (len(leaves), rows))
     rep.sample({"row_body_paths": len(leaves), "columns": headers})
     return ok
+
+
+# ------------------------------------------------------------------------------------------------ C02 R6 / C09 R6
+def c02_call_agreement(model, rep):
+    r = roles(model)
+    row_assembly(model, rep, r, "R6", ["Power (W)", "Loss (W)", "Efficiency (%)"])
+
+
+# ------------------------------------------------------------------------------------------------ solver loop anatomy
+def solver_anatomy(model, r):
+    """structure of the SOLVER method: while loop, forward/backward calls, carried triple, convergence test"""
+    fn = model.own_method("System", r["SOLVER"])
+    loop = find_loop(fn, lambda l: isinstance(l, ast.While), "solver loop")
+    an = {"fn": fn, "loop": loop}
+    fwd = bwd = None
+    for s in loop.body:
+        if isinstance(s, ast.Assign) and isinstance(s.value, ast.Call) and isinstance(s.value.func, ast.Attribute) \
+                and isinstance(s.value.func.value, ast.Name) and s.value.func.value.id == "self":
+            if s.value.func.attr == r["FWD"]:
+                fwd = s
+            elif s.value.func.attr == r["BACK"]:
+                bwd = s
+    if fwd is None or bwd is None:
+        raise AnalysisError("solver loop does not call the forward and backward pass at its top level")
+    if not (isinstance(fwd.targets[0], ast.Tuple) and len(fwd.targets[0].elts) == 2 and all(isinstance(e, ast.Name) for e in fwd.targets[0].elts)):
+        raise AnalysisError("forward pass result is not unpacked into (voltages, states)")
+    if not isinstance(bwd.targets[0], ast.Name):
+        raise AnalysisError("backward pass result is not bound to a name")
+    an["fwd"], an["bwd"] = fwd, bwd
+    an["VNEW"], an["SNEW"] = (e.id for e in fwd.targets[0].elts)
+    an["INEW"] = bwd.targets[0].id
+    # carried triple: the call of _sys_init before the loop
+    init = None
+    for s in fn.body:
+        if s is loop:
+            break
+        if isinstance(s, ast.Assign) and isinstance(s.targets[0], ast.Tuple) and len(s.targets[0].elts) == 3 and isinstance(s.value, ast.Call):
+            init = s
+    if init is None:
+        raise AnalysisError("solver does not initialise a (v, i, state) triple before the loop")
+    an["init"] = init
+    an["V"], an["I"], an["S"] = (e.id for e in init.targets[0].elts)
+    # the carry assignment
+    carry = [s for s in loop.body if isinstance(s, ast.Assign) and isinstance(s.targets[0], ast.Tuple)
+             and [getattr(e, "id", None) for e in s.targets[0].elts] == [an["V"], an["I"], an["S"]]]
+    an["carry"] = carry
+    rets = [n for n in ast.walk(fn) if isinstance(n, ast.Return)]
+    an["returns"] = rets
+    return an
+
+
+def call_args(call, fn_def):
+    """bind positional and keyword arguments of a call to the parameter names of fn_def (self dropped)"""
+    params = [a.arg for a in fn_def.args.posonlyargs + fn_def.args.args][1:] + [a.arg for a in fn_def.args.kwonlyargs]
+    out = {}
+    for p, a in zip(params, call.args):
+        out[p] = a
+    for kw in call.keywords:
+        out[kw.arg] = kw.value
+    return out
+
+
+def is_name(node, name):
+    return isinstance(node, ast.Name) and node.id == name
+
+
+def c04_propagation(model, rep):
+    r = roles(model)
+    rel = model.rel("system")
+    an = solver_anatomy(model, r)
+    fn = an["fn"]
+    where = "%s:%d" % (rel, an["loop"].lineno)
+    # (a) the forward pass receives the carried (v, i, state); the carry replaces them by this sweep's results
+    fwd_def = model.own_method("System", r["FWD"])
+    fa = call_args(an["fwd"].value, fwd_def)
+    fps = [a.arg for a in fwd_def.args.args][1:]
+    ok = len(fps) == 4 and is_name(fa.get(fps[0]), an["V"]) and is_name(fa.get(fps[1]), an["I"]) and is_name(fa.get(fps[3]), an["S"])
+    if not ok:
+        rep.violation("R3", "system.System.%s" % fn.name, where, "forward pass is not called with the carried (voltages, currents, states)", "fwd args")
+    rep.instance("R3", "system.System.%s forward-pass operands" % fn.name, where, ok)
+    ok = len(an["carry"]) == 1 and isinstance(an["carry"][0].value, ast.Tuple) and \
+        [getattr(e, "id", None) for e in an["carry"][0].value.elts] == [an["VNEW"], an["INEW"], an["SNEW"]]
+    if not ok:
+        rep.violation("R3", "system.System.%s" % fn.name, where, "the carried (v, i, state) is not replaced by this sweep's (forward voltages, backward currents, forward states)", "carry")
+    rep.instance("R3", "system.System.%s carried triple" % fn.name, where, ok)
+    # (b) _sys_init
+    init_name = an["init"].value.func.attr if isinstance(an["init"].value.func, ast.Attribute) else None
+    if init_name is None or model.own_method("System", init_name) is None:
+        raise AnalysisError("solver initialiser not resolved")
+    ifn, loop, cl, env = body_leaves(model, r, init_name, lambda l: isinstance(l, ast.For), "init loop")
+    ps = [a.arg for a in ifn.args.args][1:]
+    # the three vectors: targets of the tuple assignment from the vector constructor
+    vec = None
+    for s in ifn.body:
+        if isinstance(s, ast.Assign) and isinstance(s.targets[0], ast.Tuple) and len(s.targets[0].elts) == 3 and isinstance(s.value, ast.Call):
+            vec = [e.id for e in s.targets[0].elts]
+    if vec is None:
+        raise AnalysisError("%s does not create its three vectors" % init_name)
+    sargs = {"self": Sym(("name", "self")), "n": Sym(("name", loop.target.id)), "phase": env[ps[0]],
+             "v": env[vec[0]], "i": env[vec[1]], "state": env[vec[2]]}
+    sl = spec_leaves(model, r, "sys_init__body", sargs)
+    nvar = Sym(("name", loop.target.id))
+
+    def cval(lf):
+        out = {}
+        for e in lf.events:
+            if e[0] == "store" and e[1][0] == "sub":
+                base, idx = e[1][1], e[1][2]
+                for nm, v in (("v", env[vec[0]]), ("i", env[vec[1]]), ("state", env[vec[2]])):
+                    if base == vkey(v) and idx == vkey(nvar):
+                        out[nm] = e[2]
+                    # state[n]["off"] = [...]
+                    if nm == "state" and base == Sym(("sub", vkey(v), vkey(nvar))) and idx == "off":
+                        out["state"] = DictV([("off", e[2])])
+        return out
+
+    def sval(lf):
+        return {k: lf.value.get(k) for k in ("v", "i", "state")}
+    rows_, ok = compare_rows(cl, sl, cval, sval, rep, "R3", "system.System.%s" % init_name, "%s:%d" % (rel, loop.lineno), "solver initialisation")
+    rep.instance("R3", "system.System.%s loop body" % init_name, "%s:%d" % (rel, loop.lineno), ok, "%d leaves, %d rows" % (len(cl), rows_))
+
+
+# ------------------------------------------------------------------------------------------------ C06 R3-R5
+def names_read(node):
+    return {n.id for n in ast.walk(node) if isinstance(n, ast.Name) and isinstance(n.ctx, ast.Load)}
+
+
+def assigned_names(target, acc=None):
+    acc = set() if acc is None else acc
+    if isinstance(target, ast.Name):
+        acc.add(target.id)
+    elif isinstance(target, (ast.Tuple, ast.List)):
+        for e in target.elts:
+            assigned_names(e, acc)
+    elif isinstance(target, ast.Starred):
+        assigned_names(target.value, acc)
+    return acc
+
+
+def upward_exposed(stmts, defined, exposed, written, appends):
+    """must-defined forward walk: names read before being defined on some path (inner loops assumed to run once).
+    appends: names only ever augmented with a list (x += [..]) - recorded separately"""
+    for s in stmts:
+        if isinstance(s, ast.Assign):
+            reads = names_read(s.value)
+            for t in s.targets:
+                if not isinstance(t, (ast.Name, ast.Tuple, ast.List)):
+                    reads |= names_read(t)
+            exposed |= {(n, s.lineno) for n in reads if n not in defined}
+            for t in s.targets:
+                w = assigned_names(t)
+                written |= w
+                defined |= w
+        elif isinstance(s, ast.AugAssign):
+            reads = names_read(s.value)
+            exposed |= {(n, s.lineno) for n in reads if n not in defined}
+            if isinstance(s.target, ast.Name):
+                if s.target.id not in defined:
+                    if isinstance(s.op, ast.Add) and isinstance(s.value, ast.List):
+                        appends.add(s.target.id)
+                    else:
+                        exposed.add((s.target.id, s.lineno))
+                written.add(s.target.id)
+            else:
+                exposed |= {(n, s.lineno) for n in names_read(s.target) if n not in defined}
+        elif isinstance(s, ast.If):
+            exposed |= {(n, s.lineno) for n in names_read(s.test) if n not in defined}
+            d1, d2 = set(defined), set(defined)
+            upward_exposed(s.body, d1, exposed, written, appends)
+            upward_exposed(s.orelse, d2, exposed, written, appends)
+            t1 = bool(s.body) and isinstance(s.body[-1], (ast.Raise, ast.Return, ast.Continue, ast.Break))
+            t2 = bool(s.orelse) and isinstance(s.orelse[-1], (ast.Raise, ast.Return, ast.Continue, ast.Break))
+            if t1 and not t2:
+                defined |= d2
+            elif t2 and not t1:
+                defined |= d1
+            else:
+                defined |= (d1 & d2)
+        elif isinstance(s, (ast.For, ast.While)):
+            if isinstance(s, ast.For):
+                exposed |= {(n, s.lineno) for n in names_read(s.iter) if n not in defined}
+                w = assigned_names(s.target)
+                written |= w
+                defined |= w
+            else:
+                exposed |= {(n, s.lineno) for n in names_read(s.test) if n not in defined}
+            upward_exposed(s.body, defined, exposed, written, appends)   # one-trip assumption: body's definitions survive
+        elif isinstance(s, ast.With):
+            for it in s.items:
+                exposed |= {(n, s.lineno) for n in names_read(it.context_expr) if n not in defined}
+                if it.optional_vars is not None:
+                    w = assigned_names(it.optional_vars)
+                    written |= w
+                    defined |= w
+            upward_exposed(s.body, defined, exposed, written, appends)
+        elif isinstance(s, ast.Try):
+            upward_exposed(s.body, defined, exposed, written, appends)
+            for h in s.handlers:
+                upward_exposed(h.body, set(defined), exposed, written, appends)
+            upward_exposed(s.finalbody, defined, exposed, written, appends)
+        elif isinstance(s, (ast.Expr, ast.Return, ast.Raise, ast.Delete, ast.Assert)):
+            exposed |= {(n, s.lineno) for n in names_read(s) if n not in defined}
+        elif isinstance(s, (ast.Pass, ast.Break, ast.Continue, ast.Import, ast.ImportFrom)):
+            pass
+        else:
+            raise AnalysisError("statement %s at line %d not handled by the loop-carried analysis" % (type(s).__name__, s.lineno))
+
+
+def loop_carried(loop):
+    """names written in the loop body that may be read in a later iteration before being rewritten"""
+    defined, exposed, written, appends = set(), set(), set(), set()
+    if isinstance(loop, ast.For):
+        defined |= assigned_names(loop.target)
+    upward_exposed(loop.body, defined, exposed, written, appends)
+    carried = {}
+    for n, line in exposed:
+        if n in written:
+            carried.setdefault(n, line)
+    # append-only accumulators: written only through `x += [..]`; any other read of them inside the loop is a carry
+    acc = set()
+    for n in appends:
+        other_reads = [x for x in ast.walk(loop) if isinstance(x, ast.Name) and x.id == n and isinstance(x.ctx, ast.Load)]
+        plain_writes = [x for x in ast.walk(loop) if isinstance(x, ast.Name) and x.id == n and isinstance(x.ctx, ast.Store)
+                        and not isinstance(getattr(x, "_parent", None), ast.AugAssign)]
+        if other_reads or plain_writes:
+            carried.setdefault(n, loop.lineno)
+        else:
+            acc.add(n)
+    return carried, acc
+
+
+def c06_plumbing(model, rep):
+    r = roles(model)
+    rel = model.rel("system")
+    an = solve_anchors(model, r)
+    fn, ploop = an["fn"], an["phase_loop"]
+    where = "%s:%d" % (rel, ploop.lineno)
+    phvar = ploop.target.id if isinstance(ploop.target, ast.Name) else None
+    if phvar is None:
+        raise AnalysisError("phase loop target is not a name")
+    # ---- R3 plumbing: solve -> SOLVER -> init / fwd / back
+    solver_def = model.own_method("System", r["SOLVER"])
+    sa_ = call_args(an["solver_call"].value, solver_def)
+    sparams = [a.arg for a in solver_def.args.args][1:]
+    phase_param = sparams[-1]
+    ok = is_name(sa_.get(phase_param), phvar)
+    if not ok:
+        rep.violation("R3", "system.System.solve", "%s:%d" % (rel, an["solver_call"].lineno), "the solver is not called with the phase-loop variable as its phase", "solver phase arg")
+    rep.instance("R3", "system.System.solve -> %s phase argument" % r["SOLVER"], "%s:%d" % (rel, an["solver_call"].lineno), ok)
+    sol = solver_anatomy(model, r)
+    for what, call, dname in (("init", sol["init"].value, sol["init"].value.func.attr), ("forward", sol["fwd"].value, r["FWD"]), ("backward", sol["bwd"].value, r["BACK"])):
+        d = model.own_method("System", dname)
+        ca = call_args(call, d)
+        pp = [a.arg for a in d.args.args][1:]
+        pname = [p for p in pp if p == "phase"]
+        if not pname:
+            raise AnalysisError("%s has no phase parameter" % dname)
+        ok = is_name(ca.get("phase"), phase_param)
+        if not ok:
+            rep.violation("R3", "system.System.%s" % r["SOLVER"], "%s:%d" % (rel, call.lineno), "%s pass is not given the solver's phase" % what, what + " phase arg")
+        rep.instance("R3", "system.System.%s -> %s phase argument" % (r["SOLVER"], dname), "%s:%d" % (rel, call.lineno), ok)
+    # phase lookup: registry phase_conf[name] -> index of that name
+    lfn = model.own_method("System", r["SET_PHLK"])
+    loop = find_loop(lfn, lambda l: isinstance(l, ast.For), "phase lookup loop")
+    ok = False
+    for s in ast.walk(loop):
+        if isinstance(s, ast.Assign) and isinstance(s.targets[0], ast.Subscript):
+            key, val = s.targets[0].slice, s.value
+            kd, vd = ast.dump(key), ast.dump(val)
+            # key: self._get_index(<name part>), value: <conf part> of the same item
+            if isinstance(key, ast.Call) and isinstance(key.func, ast.Attribute) and key.func.attr == "_get_index":
+                it = ast.dump(loop.iter)
+                if "phase_conf" in it and ".items" in ast.unparse(loop.iter):
+                    tgt = loop.target
+                    if isinstance(tgt, ast.Name):
+                        ok = ast.unparse(key.args[0]) == tgt.id + "[0]" and ast.unparse(val) == tgt.id + "[1]"
+                    elif isinstance(tgt, ast.Tuple) and len(tgt.elts) == 2:
+                        ok = ast.unparse(key.args[0]) == tgt.elts[0].id and ast.unparse(val) == tgt.elts[1].id
+                elif "phase_conf" in it:
+                    tgt = loop.target
+                    ok = isinstance(tgt, ast.Name) and ast.unparse(key.args[0]) == tgt.id and ast.unparse(val).endswith('["phase_conf"][%s]' % tgt.id)
+    if not ok:
+        rep.violation("R3", "system.System.%s" % r["SET_PHLK"], "%s:%d" % (rel, loop.lineno), "the per-node phase table is not the registry entry of the same component", "phase lookup map")
+    rep.instance("R3", "system.System.%s name -> index map" % r["SET_PHLK"], "%s:%d" % (rel, loop.lineno), ok)
+    # the lookup is rebuilt by the initialiser of every solve
+    init_def = model.own_method("System", sol["init"].value.func.attr)
+    calls = {c.func.attr for c in ast.walk(init_def) if isinstance(c, ast.Call) and isinstance(c.func, ast.Attribute) and is_name(c.func.value, "self")}
+    ok = r["SET_PHLK"] in calls
+    if not ok:
+        rep.violation("R3", "system.System.%s" % init_def.name, "%s:%d" % (rel, init_def.lineno), "the phase lookup is not rebuilt before solving", "phase lookup refresh")
+    rep.instance("R3", "system.System.%s rebuilds the phase lookup" % init_def.name, "%s:%d" % (rel, init_def.lineno), ok)
+    # ---- R4 phase independence
+    carried, acc = loop_carried(ploop)
+    ok = not carried
+    for n, line in sorted(carried.items()):
+        rep.violation("R4", "system.System.solve", "%s:%d" % (rel, line), "'%s' is written in one phase iteration and may be read in the next before being rewritten" % n, "carried " + n)
+    rep.instance("R4", "system.System.solve phase loop: no loop-carried state", where, ok, "append-only accumulators: %s" % ", ".join(sorted(acc)))
+    rep.sample({"phase_loop_accumulators": sorted(acc)})
+    # ---- R4b / R5 phase list and unknown phase
+    phase_list_rule(model, rep, r, an)
+
+
+def phase_list_rule(model, rep, r, an):
+    rel = model.rel("system")
+    fn, ploop = an["fn"], an["phase_loop"]
+    pre = []
+    for s in fn.body:
+        if s is ploop:
+            break
+        pre.append(s)
+    hooks = SysHooks(model, r)
+    sm = Summarizer(hooks, Ctx())
+    a = fn.args
+    args = {x.arg: Sym(("name", x.arg)) for x in a.posonlyargs + a.args + a.kwonlyargs}
+    # drop statements that do not concern the phase list (calls, accumulator initialisations)
+    it = ploop.iter
+    if not isinstance(it, ast.Name):
+        raise AnalysisError("phase loop does not iterate over a name")
+    try:
+        leaves = sm.summarize_block([s for s in pre if not (isinstance(s, ast.Expr) and isinstance(s.value, ast.Call))], args)
+    except Unsupported as e:
+        raise AnalysisError("solve prologue: %s" % e)
+    phases_keys = None
+    ok_list, ok_raise = True, True
+    nrows = 0
+    phase = args["phase"]
+    for lf in leaves:
+        lits = {}
+        for g in lf.guards:
+            literals(g, True, lits)
+        # classify the path by the two questions: is a phase requested, is it known
+        req = None
+        for k, v in lits.items():
+            if k[0] == "EQ" and "" in k[1:] and phase in k[1:]:
+                req = not v
+        if req is None:
+            raise AnalysisError("solve prologue does not test phase != ''")
+        nrows += 1
+        if lf.kind == "raise":
+            if not (req and lf.exc == "ValueError"):
+                ok_raise = False
+            continue
+        val = lf.env.get(it.id)
+        if req:
+            if not (isinstance(val, ListV) and val.items == [phase]):
+                ok_list = False
+        else:
+            # either [""] (no phases) or the registry's keys in declared order
+            if isinstance(val, ListV) and val.items == [""]:
+                continue
+            s = show_value(val)
+            if not (isinstance(val, Sym) and s.replace(" ", "") in ("list(self._g.attrs['phases'].keys())", "list(self._g.attrs['phases'])")):
+                ok_list = False
+    has_raise = any(lf.kind == "raise" and lf.exc == "ValueError" for lf in leaves)
+    if not has_raise:
+        ok_raise = False
+    where = "%s:%d" % (rel, fn.lineno)
+    if not ok_list:
+        rep.violation("R4", "system.System.solve", where, "the phase list is not [phase] for a requested phase / all phases in declared order otherwise", "phase list")
+    if not ok_raise:
+        rep.violation("R5", "system.System.solve", where, "an unknown phase is not rejected with ValueError before the phase loop", "unknown phase")
+    rep.instance("R4", "system.System.solve phase list", where, ok_list, "%d prologue paths" % nrows)
+    rep.instance("R5", "system.System.solve unknown phase -> ValueError", where, ok_raise)
